@@ -397,6 +397,61 @@ def run_concurrency(ck, writers, rounds, size, readers, tag, reopen=False):
     shutil.rmtree(d, ignore_errors=True)
 
 
+def work_lock(p):
+    """Another connection holds the write lock while add() runs: for longer than the store's busy timeout (add() fails, or a
+    retrying add() succeeds late) or for less (add() waits).  Whatever add() reports, the batch is all-or-none and an
+    acknowledged batch is complete."""
+    import threading
+
+    from monkeytype.db.sqlite import SQLiteStore
+
+    res = core.Res()
+    d = core.scratch("c09l")
+    for hold in p["holds"]:
+        path = os.path.join(d, f"lock{hold}.sqlite3")
+        store = SQLiteStore.make_store(path)
+        store.add([mk_trace(*s) for s in batch_specs("A", 3)])
+        holder = sqlite3.connect(path, timeout=0, isolation_level=None, check_same_thread=False)
+        holder.execute("BEGIN IMMEDIATE")
+        released = []
+
+        def release():
+            time.sleep(hold)
+            holder.execute("COMMIT")
+            released.append(time.time())
+
+        th = threading.Thread(target=release)
+        t0 = time.time()
+        th.start()
+        raised = None
+        try:
+            store.add([mk_trace(*s) for s in batch_specs("B", 5)])
+        except Exception as e:
+            raised = e
+        waited = time.time() - t0
+        th.join()
+        holder.close()
+        store.conn.close()
+        c, integ = state_of(path, None)
+        nb = c.get("B", 0)
+        res.count("evaluations")
+        res.count("lock_contention_cases")
+        res.count("lock_contention_add_" + ("raised" if raised is not None else "returned"))
+        res.seen("lock_contention_outcomes", f"hold={hold}s:{'raised:' + str(raised)[:30] if raised is not None else 'ok'}:{nb}/5")
+        res.shape(f"lock|{hold}|{'raised' if raised else 'ok'}|{nb}")
+        wit = {"lock_held_for_s": hold, "add_waited_s": round(waited, 2), "raised": repr(raised)[:120], "rows": nb}
+        if c.get("A", 0) != 3:
+            res.violation("committed-batch-lost", f"batch A has {c.get('A', 0)}/3 rows after a contended add", wit)
+        if raised is None and nb != 5:
+            res.violation("acknowledged-batch-not-fully-committed", f"add() returned after waiting for a write lock held {hold}s by another connection: {nb}/5 rows present", wit)
+        elif raised is not None and nb not in (0, 5):
+            res.violation("raised-batch-partially-committed", f"add() raised ({raised!r:.60}) under lock contention and {nb}/5 rows are present", wit)
+        if integ != "ok":
+            res.violation("integrity-check-failed", integ, wit)
+    shutil.rmtree(d, ignore_errors=True)
+    return res.out()
+
+
 # ------------------------------------------------------------------------------------------------
 # (4) faults
 
@@ -690,6 +745,9 @@ def run(ck):
         plans.append((8, 2, 5, 2))
     for i, (w, rounds, size, readers) in enumerate(plans):
         run_concurrency(ck, w, rounds, size, readers, i, reopen=i % 2 == 1)
+    # (3b) write lock held by another connection around the store's busy timeout (5 s by default)
+    for r in core.pmap("vf.props.c09:work_lock", [{"holds": [h]} for h in ([1.0, 5.6, 6.5] if quick else [0.5, 2.0, 4.5, 5.3, 5.6, 6.0, 7.0, 9.0, 12.0])], timeout=600):
+        ck.merge(r)
     # (4) faults: VM steps
     d = core.scratch("c09")
     sizes = [6] if quick else [1, 6, 25]
@@ -757,6 +815,7 @@ def run(ck):
     ck.need("commit_orders", 3, "fewer than 3 distinct commit orders seen")
     ck.need("reader_reads", 20)
     ck.need("concurrent_batches_from_fresh_connections", 30)
+    ck.need("lock_contention_cases", 3)
     ck.need("abort_points", 100)
     ck.need("retries_after_abort", 20)
     ck.need("abort_raised", 50, "no abort landed inside the insert")
